@@ -20,6 +20,7 @@ import (
 	"io"
 	"io/fs"
 	"reflect"
+	"sort"
 	"strings"
 	"sync"
 )
@@ -389,8 +390,15 @@ func (root *Root) ParseFS(fsys fs.FS, patterns ...string) (err error) {
 			fileSet[m] = struct{}{}
 		}
 	}
-	var schema []byte
+	// Read the files in name order so that the same file system gives the
+	// same schema, member order included, every time.
+	fnames := make([]string, 0, len(fileSet))
 	for fname := range fileSet {
+		fnames = append(fnames, fname)
+	}
+	sort.Strings(fnames)
+	var schema []byte
+	for _, fname := range fnames {
 		var f fs.File
 		if f, err = fsys.Open(fname); err == nil {
 			var bytes []byte
